@@ -86,4 +86,5 @@ def make_server(spec, result):
         return None
 
     srv = SimServer(respond, fault_for=fault_for)
+    srv.hosts = set(spec.get("hosts") or ["schema.test"])
     return srv
